@@ -196,6 +196,40 @@ def run(ck):
         outs = analyse(repo, f, make_config(facts, extra_inline=FIT_INL, ret_summary=fit_summary), max_paths=2048)
         ck.analysed["paths"] += len(outs)
         n_sites += check_calls(ck, repo, f, outs, label)
+    # F7: a curve generator hands back a curve that carries the very conditions its fluxes were computed for (the curve object
+    # inverts fluxes to permeances under ITS OWN permeate condition: a condition that is not forwarded is silently vacuum)
+    from ..oracle import Oracle
+
+    def carries_conditions(fname, outs, cfg, label):
+        fn = repo.find_function(fname)
+        for o in outs:
+            if o.kind != "return" or not (isinstance(o.value, ObjV) and o.value.cls.name == "DiffusionCurve"):
+                continue
+            orc = Oracle(repo, fn, cfg, dict(o.facts))
+            for fld, src in (("permeate_temperature", "permeate_temperature"), ("permeate_pressure", "permeate_pressure"),
+                             ("feed_temperature", "feed_temperature"), ("mixture", "self.mixture")):
+                got = o.value.fields.get(fld)
+                try:
+                    want = orc.eval(src)
+                    okc = got is not None and key_equiv(val_key(got), val_key(want))
+                except Exception:
+                    okc = False
+                ck.ob("F7", fname, "the returned curve carries the caller's %s" % fld, fn.loc(), okc,
+                      "the curve object derives permeances from fluxes under its own stored condition; a condition that is not handed over is vacuum / default",
+                      found=repr(got)[:100], config=label)
+            fl = o.value.fields.get("partial_fluxes")
+            ck.ob("F7", fname, "the returned curve is given the fluxes the solver computed (it would otherwise rebuild them for vacuum)", fn.loc(),
+                  fl is not None and fl is not NONE and not isinstance(fl, NoneV), found=repr(fl)[:80], config=label)
+    for (name, mode, basis), outs in results.items():
+        if name == "Pervaporation.ideal_diffusion_curve" and mode != "both":
+            ft, fp = MODES[mode]
+            facts = {"permeate_temperature": ft, "permeate_pressure": fp, "calculation_type": "notnone", "precision": "notnone",
+                     "composition.type": ("str", basis)}
+            carries_conditions(name, outs, make_config(facts, ret_summary=permeance_summary), "mode=%s basis=%s" % (mode, basis))
+    fnc = repo.find_function("Pervaporation.non_ideal_diffusion_curve")
+    for label, facts, meta in curve_configs(repo, fnc):
+        cfgc = make_config(facts, extra_inline=FIT_INL, ret_summary=fit_summary)
+        carries_conditions("Pervaporation.non_ideal_diffusion_curve", analyse(repo, fnc, cfgc, max_paths=2048), cfgc, label)
     # --- curve object ---------------------------------------------------------------------------------------------------------
     DC = repo.find_class("DiffusionCurve")
     for mname in ("__attrs_post_init__", "get_permeances"):
